@@ -68,7 +68,7 @@ def draw_scenario(cs, cfg):
     sc["family"] = cs.weighted([3, 1], "family")
     if sc["family"] == 0:
         # objects holding one tensor under two names get twice the weight: several mechanisms only differ there
-        sc["kind"] = cs.weighted([2 if k in (AC.EMAlias, AC.NNShared) else 1 for k in AC.ALL_KINDS], "kind")
+        sc["kind"] = cs.weighted([2 if k in (AC.EMAlias, AC.NNShared, AC.EMAliasFirst, AC.NNSharedFirst) else 1 for k in AC.ALL_KINDS], "kind")
         sc["fkind"] = ["method", "pf", "sibling", "multisibling", "callable"][cs.weighted([4, 3, 2, 1, 2], "fkind")]
         sc["kind2"] = cs.draw(len(AC.ALL_KINDS), "kind2") if sc["fkind"] == "multisibling" else None
     else:
